@@ -30,6 +30,7 @@ CONSTANTS NPs, NTs, NWs, NGSet, \* logical axis sizes of the model block; number
           OrderSet,             \* "all" | "named"
           Flatten,              \* "logical" | "memory"
           Mags8, Mags4,         \* magnitudes 10^-m (cm^2) to be driven with 8-byte / 4-byte elements
+          GridDtypes,           \* element types of the GRIDS (temperature / pressure nodes): subset of {"i8","i4","i2","f4","f8"}
           Export
 VARIABLES phase, NGs, order, p, t, flat
 vars == <<phase, NGs, order, p, t, flat>>
@@ -114,4 +115,22 @@ EmitStores == (Export /\ TLCGet("level") = 1 /\ p = 0 /\ t = 0) =>
             PrintT(<<"STORE", ToJson([layout |-> Layout, holder |-> h, order |-> order, dtype |-> dt, mag |-> m,
                                       tol |-> RelTol(dt), cmajor |-> order = Identity,
                                       wnmajor |-> (NGs = 0 \/ Pos(order, 3) < Pos(order, 4))])>>)
+
+\* ------------------------------------------------------------------ element type of the GRIDS
+\* The nodes of the temperature / pressure grid have an element type of their own: tables read from HDF5 / pickle files
+\* often carry whole-kelvin temperature grids as int64 / int32 / int16 (or 4-byte floats), while the request (T, P) is a
+\* real number.  The clause: the result does not depend on the element type of the grids (MC_InterpGridType.tla states
+\* it for the cell search -- the request is compared as it is, never converted to the grid's type -- and exports the
+\* requests: fractions of a kelvin beside every node, whole kelvin, nodes, outside).  Records GRIDTYPE:
+\*   integer: requests that are whole kelvin are also passed as integers (the arithmetic of the documented formula,
+\*            e.g. Tmax (Tmin - T) in exp mode, must not be carried out in the grid's integer type);
+\*   pgrid:   the pressure grid has the type too.  numpy evaluates log10 of a 2-byte integer / 4-byte float array in
+\*            4-byte arithmetic, the log10 of the nodes are then no longer the whole decades the exact region dispatch is
+\*            stated for: those two types are driven on the temperature grid only;
+\*   tol:     <<0, 1>> = the driver's REL (integer nodes are exact in 8-byte arithmetic); 4-byte float nodes make numpy
+\*            round T - Tmin etc. to 4 bytes: 2^-18 of the largest bracketing node as for 4-byte tables (RelTol).
+EmitGridTypes == (Export /\ TLCGet("level") = 1 /\ p = 0 /\ t = 0 /\ NGs = 0 /\ order = Identity) =>
+    \A g \in GridDtypes :
+        PrintT(<<"GRIDTYPE", ToJson([gdtype |-> g, integer |-> g \in {"i8", "i4", "i2"}, pgrid |-> g \in {"i8", "i4", "f8"},
+                                    tol |-> RelTol(g)])>>)
 =============================================================================
